@@ -61,8 +61,12 @@ pub struct SuccinctBitVector {
 
     /// Relative rank within superblock for each block.
     /// block_ranks[i] = number of 1-bits from superblock start to block i start.
-    /// Uses u8 since max value is SUPERBLOCK_BITS - BLOCK_BITS = 448.
+    /// The value can reach SUPERBLOCK_BITS - BLOCK_BITS = 448 (9 bits): the low 8 bits live
+    /// here, the ninth bit in `block_rank_high`.
     block_ranks: Vec<u8>,
+
+    /// Bit i is set when the relative rank of block i is 256 or more.
+    block_rank_high: Vec<u64>,
 
     /// Sample positions for select1.
     /// select1_samples[i] = position of (i * SELECT_SAMPLE_RATE)-th 1-bit.
@@ -94,6 +98,7 @@ impl SuccinctBitVector {
 
         let mut superblock_ranks = Vec::with_capacity(num_superblocks);
         let mut block_ranks = Vec::with_capacity(num_blocks);
+        let mut block_rank_high = vec![0u64; (num_blocks + 63) / 64];
         let mut select1_samples = Vec::new();
         let mut select0_samples = Vec::new();
 
@@ -114,7 +119,10 @@ impl SuccinctBitVector {
 
             // Store relative rank within superblock
             let relative_rank = cumulative_ones - superblock_start_ones;
-            block_ranks.push(relative_rank as u8);
+            block_ranks.push((relative_rank & 0xFF) as u8);
+            if relative_rank >= 256 {
+                block_rank_high[block_idx / 64] |= 1u64 << (block_idx % 64);
+            }
 
             // Count bits in this word
             let bits_in_word = if bit_pos + BLOCK_BITS <= len {
@@ -157,6 +165,7 @@ impl SuccinctBitVector {
             inner,
             superblock_ranks,
             block_ranks,
+            block_rank_high,
             select1_samples,
             select0_samples,
             ones_count: cumulative_ones as usize,
@@ -240,7 +249,7 @@ impl SuccinctBitVector {
 
         // Add block relative count
         if block_idx < self.block_ranks.len() {
-            rank += self.block_ranks[block_idx] as usize;
+            rank += self.block_rank(block_idx);
         }
 
         // Add popcount within the current word
@@ -309,7 +318,7 @@ impl SuccinctBitVector {
 
         let mut block_idx = block_start;
         for i in block_start..block_end {
-            let block_rank = superblock_base_rank + self.block_ranks[i] as usize;
+            let block_rank = superblock_base_rank + self.block_rank(i);
             if block_rank >= target_rank {
                 break;
             }
@@ -317,7 +326,7 @@ impl SuccinctBitVector {
         }
 
         // Linear scan within the block
-        let block_base_rank = superblock_base_rank + self.block_ranks[block_idx] as usize;
+        let block_base_rank = superblock_base_rank + self.block_rank(block_idx);
         let remaining = k - block_base_rank;
 
         if block_idx >= self.inner.data().len() {
@@ -425,11 +434,18 @@ impl SuccinctBitVector {
         None
     }
 
+    /// Number of 1-bits from the start of block `i`'s superblock to the start of block `i`.
+    fn block_rank(&self, i: usize) -> usize {
+        let high = (self.block_rank_high[i / 64] >> (i % 64)) & 1;
+        self.block_ranks[i] as usize + ((high as usize) << 8)
+    }
+
     /// Returns the approximate size in bytes of the auxiliary structures.
     #[must_use]
     pub fn auxiliary_size_bytes(&self) -> usize {
         self.superblock_ranks.len() * 4
             + self.block_ranks.len()
+            + self.block_rank_high.len() * 8
             + self.select1_samples.len() * 4
             + self.select0_samples.len() * 4
     }
